@@ -34,6 +34,9 @@ func init() {
 	register("C04", func(s *simrt.Sim) *Result {
 		return RunRoute(s, RouteProfile{Name: "C04", Faults: true, Cleanup: true})
 	})
+	register("C04bias", func(s *simrt.Sim) *Result {
+		return RunRoute(s, RouteProfile{Name: "C04bias", Faults: true, BiasFaults: true, Cleanup: true})
+	})
 	register("C05ring", RunRing)
 	register("C05sys", func(s *simrt.Sim) *Result {
 		return RunRoute(s, RouteProfile{Name: "C05sys", CheckC05: true, CheckC02End: true, Cleanup: true})
